@@ -691,7 +691,7 @@ SPECIAL_FLOORS = {
                      'dotted:variant:setdefault': 1400, 'dotted:variant:update': 3000, 'special:nontrivial': 87000}},
 }
 # round 11, parsed text repeating one field in several case variants.  quick: about 50 percent of the minimum measured
-# on the unchanged tree over VERIF_SEED 0-3 (small counts at least 4 sigma below it).  thorough: see the report.
+# on the unchanged tree over VERIF_SEED 0-3 (small counts at least 4 sigma below it); thorough: the same from one run with seed 0.
 REPEAT_FLOORS = {
     'quick': {'monitors': {'M.repeat': 6800},
               'counters': {'repeat:addressed:after-item': 150, 'repeat:addressed:after-ref': 150,
@@ -722,35 +722,36 @@ REPEAT_FLOORS = {
                            'repeat:variant:first': 200, 'repeat:variant:get': 150, 'repeat:variant:in': 95,
                            'repeat:variant:last': 190, 'repeat:variant:pop': 100, 'repeat:variant:set': 530,
                            'repeat:variant:setdefault': 90, 'repeat:variant:update': 110}},
-    'thorough': {'monitors': {'M.repeat': 27000},
-                 'counters': {'repeat:addressed:after-item': 600, 'repeat:addressed:after-ref': 600,
-                              'repeat:addressed:before-item': 880, 'repeat:addressed:before-ref': 1240,
-                              'repeat:addressed:del': 840, 'repeat:addressed:first': 1240, 'repeat:addressed:get': 720,
-                              'repeat:addressed:in': 400, 'repeat:addressed:last': 920, 'repeat:addressed:pop': 440,
-                              'repeat:addressed:set': 2320, 'repeat:addressed:setdefault': 388, 'repeat:addressed:update': 440,
-                              'repeat:copy:Deb822': 224, 'repeat:copy:Deb822Dict': 120, 'repeat:copy:copy': 240,
-                              'repeat:copy:ctor': 232, 'repeat:copy:ctor-dict': 132, 'repeat:copy:ctor-dict-items': 120,
-                              'repeat:copy:ctor-item-list': 116, 'repeat:copy:ctor-items': 116, 'repeat:copy:dict': 28,
-                              'repeat:copy:dict-items': 40, 'repeat:copy:list': 36, 'repeat:copy:list-items': 12,
-                              'repeat:copy:list-keys': 36, 'repeat:copy:list-values': 20, 'repeat:copy:tuple-items': 48,
-                              'repeat:cycle:bytes': 144, 'repeat:cycle:fd-bytes': 148, 'repeat:cycle:fd-text': 152,
-                              'repeat:cycle:file-bytes': 144, 'repeat:cycle:file-text': 144, 'repeat:cycle:iter': 152,
-                              'repeat:cycle:iter-bytes': 152, 'repeat:cycle:lines': 160, 'repeat:cycle:lines-bytes': 152,
-                              'repeat:cycle:str': 156, 'repeat:nontrivial': 1680, 'repeat:removed-then-reassigned': 1400,
-                              'repeat:shape:2-lines': 640, 'repeat:shape:3+-spellings': 324, 'repeat:shape:3-lines': 920,
-                              'repeat:shape:4-lines': 400, 'repeat:shape:adjacent': 720,
-                              'repeat:shape:first-spelling-differs-from-last': 1080,
-                              'repeat:shape:first-value-differs-from-last': 2040, 'repeat:shape:not-at-head': 720,
-                              'repeat:shape:not-at-tail': 520, 'repeat:shape:prefix-twin-between': 368,
-                              'repeat:shape:recurs-after-variant': 1040, 'repeat:shape:spread': 1240,
-                              'repeat:shape:two-groups': 244, 'repeat:start:iter': 168, 'repeat:start:iter-bytes': 156,
-                              'repeat:start:lazy': 324, 'repeat:start:lazy-bytes': 336, 'repeat:start:parsed-bytes': 176,
-                              'repeat:start:parsed-lines': 160, 'repeat:start:parsed-lines-bytes': 160,
-                              'repeat:start:parsed-str': 168, 'repeat:variant:after-item': 244, 'repeat:variant:after-ref': 480,
-                              'repeat:variant:before-item': 840, 'repeat:variant:before-ref': 960, 'repeat:variant:del': 680,
-                              'repeat:variant:first': 800, 'repeat:variant:get': 600, 'repeat:variant:in': 380,
-                              'repeat:variant:last': 760, 'repeat:variant:pop': 400, 'repeat:variant:set': 2120,
-                              'repeat:variant:setdefault': 360, 'repeat:variant:update': 440}},
+    'thorough': {'monitors': {'M.repeat': 230000},
+                 'counters': {'repeat:addressed:after-item': 7400, 'repeat:addressed:after-ref': 7500,
+                              'repeat:addressed:before-item': 7900, 'repeat:addressed:before-ref': 8100,
+                              'repeat:addressed:del': 5100, 'repeat:addressed:first': 6800, 'repeat:addressed:get': 3200,
+                              'repeat:addressed:in': 2600, 'repeat:addressed:last': 6500, 'repeat:addressed:pop': 2900,
+                              'repeat:addressed:set': 10000, 'repeat:addressed:setdefault': 2300,
+                              'repeat:addressed:update': 4500, 'repeat:copy:Deb822': 1700, 'repeat:copy:Deb822Dict': 1600,
+                              'repeat:copy:copy': 1800, 'repeat:copy:ctor': 1800, 'repeat:copy:ctor-dict': 1600,
+                              'repeat:copy:ctor-dict-items': 1600, 'repeat:copy:ctor-item-list': 1600,
+                              'repeat:copy:ctor-items': 1600, 'repeat:copy:dict': 1200, 'repeat:copy:dict-items': 1200,
+                              'repeat:copy:list': 1200, 'repeat:copy:list-items': 1200, 'repeat:copy:list-keys': 1200,
+                              'repeat:copy:list-values': 1200, 'repeat:copy:tuple-items': 1200, 'repeat:cycle:bytes': 870,
+                              'repeat:cycle:fd-bytes': 860, 'repeat:cycle:fd-text': 890, 'repeat:cycle:file-bytes': 880,
+                              'repeat:cycle:file-text': 870, 'repeat:cycle:iter': 860, 'repeat:cycle:iter-bytes': 880,
+                              'repeat:cycle:lines': 870, 'repeat:cycle:lines-bytes': 890, 'repeat:cycle:str': 850,
+                              'repeat:nontrivial': 13000, 'repeat:removed-then-reassigned': 4800, 'repeat:shape:2-lines': 5800,
+                              'repeat:shape:3+-spellings': 3300, 'repeat:shape:3-lines': 8500, 'repeat:shape:4-lines': 2800,
+                              'repeat:shape:adjacent': 6200, 'repeat:shape:first-spelling-differs-from-last': 10000,
+                              'repeat:shape:first-value-differs-from-last': 17000, 'repeat:shape:not-at-head': 7100,
+                              'repeat:shape:not-at-tail': 7000, 'repeat:shape:prefix-twin-between': 4300,
+                              'repeat:shape:recurs-after-variant': 7100, 'repeat:shape:spread': 11000,
+                              'repeat:shape:two-groups': 3300, 'repeat:start:iter': 1400, 'repeat:start:iter-bytes': 1400,
+                              'repeat:start:lazy': 2500, 'repeat:start:lazy-bytes': 2500, 'repeat:start:parsed-bytes': 1400,
+                              'repeat:start:parsed-lines': 1400, 'repeat:start:parsed-lines-bytes': 1400,
+                              'repeat:start:parsed-str': 1400, 'repeat:variant:after-item': 5000,
+                              'repeat:variant:after-ref': 5400, 'repeat:variant:before-item': 5700,
+                              'repeat:variant:before-ref': 5700, 'repeat:variant:del': 3500, 'repeat:variant:first': 4700,
+                              'repeat:variant:get': 2200, 'repeat:variant:in': 1800, 'repeat:variant:last': 4700,
+                              'repeat:variant:pop': 2000, 'repeat:variant:set': 7800, 'repeat:variant:setdefault': 1700,
+                              'repeat:variant:update': 3100}},
 }
 # the tolerated-unspecified probes are a fixed list run by every shard: their floors (pairs x 2 classes = one
 # shard's worth, built below) only say "they ran", never anything about their outcome
